@@ -389,6 +389,44 @@ def step (exact : Bool) (st : RSt) (w : List String) : RSt × String :=
                 else render st (m2.setBuf b { x with elems := x.elems ++ [Elem.mref (some o)] }) "ok" "true"
               | _, _ => render st (unrefObj m2 o) "refused" "false"
           | _, _ => bad
+        | "iclear", [pos] =>
+          -- the item at pos releases its instance, in place
+          match intArg pos with
+          | some pos =>
+            if st.items ≠ some true ∨ pos < -1000 ∨ pos > 1000 then bad
+            else
+              let len := count m h
+              let p : Option Nat :=
+                if pos < 0 then (if pos + Int.ofNat len < 0 then none else some (pos + Int.ofNat len).toNat)
+                else if pos.toNat ≥ len then none else some pos.toNat
+              match p, m.handle h with
+              | some p, some b =>
+                (match m.buf? b with
+                 | some x =>
+                   let m1 := finiElem m (x.elems.getD p (.mref none))
+                   (match m1.buf? b with
+                    | some y => render st (m1.setBuf b { y with elems := y.elems.set p (.mref none) }) "ok" "-"
+                    | none => render st m1 "ok" "-")
+                 | none => render st m "refused" "null")
+              | _, _ => render st m "refused" "null"
+          | none => bad
+        | "icount", [] =>
+          if st.items ≠ some true then bad
+          else
+            let es := (((m.handle h).bind m.buf?).map (·.elems)).getD []
+            render st m "ok" (toString (es.filter fun e => e ≠ .mref none).length)
+        | "icompact", [] =>
+          -- item_array::compact(): empty items are removed, in place; false when there is none
+          if st.items ≠ some true then bad
+          else
+            match m.handle h with
+            | some b =>
+              (match m.buf? b with
+               | some x =>
+                 if x.elems.all (fun e => e ≠ .mref none) then render st m "refused" "false"
+                 else render st (m.setBuf b { x with elems := x.elems.filter fun e => e ≠ .mref none }) "ok" "true"
+               | none => render st m "refused" "false")
+            | none => render st m "refused" "false"
         | "rins", [pos, sh] =>
           if st.items = some true then bad else
           let st := { st with items := some false }
@@ -498,6 +536,11 @@ def step (exact : Bool) (st : RSt) (w : List String) : RSt × String :=
                   | none => m2
                 render st (finiElem m3 old) "ok" "ptr"
               | _, _ => render st m1 "refused" "null"
+          | none => bad
+        | "identcheck", [n] =>
+          -- self-contained exercise of arrays of identifiers (harness/drv_refs.c): nothing of the script's state changes
+          match nat? n with
+          | some n => if n > 1000 then bad else render st m "ok" "-"
           | none => bad
         | "selfrot", [k] =>
           match nat? k with
